@@ -873,7 +873,7 @@ def opt_alloc(ctx):
         ctx.anchor_missing('allocation sites in the writer constructors')
 
 
-@rule('POS-WRAP', ['C06'], floor=6)
+@rule('POS-WRAP', ['C06', 'C11'], floor=6)
 def pos_wrap(ctx):
     """Branch-address conversion works modulo 2^32: in the BCJ/BCJ2 filter code every 32-bit addition or
     subtraction that involves the running stream position (a usize position field cast down to 32 bits, or a
